@@ -390,12 +390,20 @@ func (s *PassSpec) edge(f *FuncInfo, from *cfg.Block, k int, in FactSet) FactSet
 	info := f.Info()
 	val := k == 0
 	// Compound conditions are also offered whole (for guarded forms such as `n > 0 && i >= n`).
-	if be, isB := ast.Unparen(cond).(*ast.BinaryExpr); isB && (be.Op == token.LAND || be.Op == token.LOR) {
+	whole, wval := ast.Unparen(cond), val
+	for {
+		u, isU := whole.(*ast.UnaryExpr)
+		if !isU || u.Op != token.NOT {
+			break
+		}
+		whole, wval = ast.Unparen(u.X), !wval
+	}
+	if be, isB := whole.(*ast.BinaryExpr); isB && (be.Op == token.LAND || be.Op == token.LOR) {
 		for _, v := range s.Vias {
 			if v.Cond == nil {
 				continue
 			}
-			if id, passVal, ok := v.Cond(f, cond); ok && val == passVal {
+			if id, passVal, ok := v.Cond(f, whole); ok && wval == passVal {
 				in["pass:"+id] = true
 			}
 		}
